@@ -33,18 +33,12 @@ def ofShort (s : String) : Option Sev := all.find? (fun v => v.short == s)
 /-- the enum as the model sees it -/
 def table : List (String × Int) := all.map (fun s => (s.cname, s.rank))
 
-/-- the model's numbering is the header's numbering (re-checked whenever the header changes) -/
-theorem table_eq_generated : table = Generated.severityEnum := by decide
-
 /-- `a.lt b` : `a < b` on the C enum values (a is more severe) -/
 def lt (a b : Sev) : Bool := decide (a.rank < b.rank)
 def le (a b : Sev) : Bool := decide (a.rank ≤ b.rank)
 
 /-- `ErrorDescriptor::GreaterSeverity`: `(s < _severity) ? _severity = s : _severity` with `cur = _severity` -/
 def greater (cur s : Sev) : Sev := if s.lt cur then s else cur
-
-theorem greater_null_right (e : Sev) : greater e .null = e := by cases e <;> rfl
-theorem greater_null_left (s : Sev) : greater .null s = s := by cases s <;> rfl
 
 end Sev
 end StepModel
